@@ -167,5 +167,5 @@ def space(tier):
 
     def f_rand(j, rng):
         return mk([rand_state(rng) for _ in range(8)], j)
-    sp.add("random", 700 if tier == "quick" else 70_000, f_rand)
+    sp.add("random", 3000 if tier == "quick" else 70_000, f_rand)
     return sp
